@@ -1217,6 +1217,8 @@ class Interp:
         for g, x in v.alts:
             if isinstance(x, bool):
                 x = int(x)
+            if type(x).__name__ == "ByteLen" and width == 64:
+                x = x.term()
             if isinstance(x, int):
                 x = z3.BitVecVal(x, width)
             elif not (is_sym(x) and z3.is_bv(x) and x.size() == width):
